@@ -9,7 +9,7 @@
 (* next quiescent point of the event loop:                                 *)
 (*   res   "none" | "conn" | "exc" | "cancelled": outcome of the request,  *)
 (*         reported once; cls = exception class; rc = the returned         *)
-(*         connection [st, cs, typ, user, inc, inreg, link, tx]            *)
+(*         connection [st, cs, typ, user, inc, inreg, link, tx, rx]            *)
 (*   srv   kinds of frames the server has seen so far ("GPA","CTP","CC")   *)
 (*   peer  kinds of frames the peers have seen so far ("init","bpierce")   *)
 (*   att, batt  open_connection attempts so far (to the peer / connect-back)*)
@@ -19,7 +19,7 @@
 (*         open transports, attempt tasks still pending                    *)
 (*   noobs TRUE: the next stimulus followed without settling; nothing was  *)
 (*         observed (sub-slot schedules, validated with TraceFine.cfg)     *)
-(* First record: init [mode, typ, user, given, sendfail].                  *)
+(* First record: init [mode, typ, user, given, sendfail, badport].         *)
 (*                                                                         *)
 (* Phase "stim": the next record's stimulus is applied to the model.       *)
 (* Phase "run": the model takes process steps (silent; the pcs are not     *)
@@ -49,6 +49,7 @@ TInit ==
   /\ mode = Traces[tid][1].mode
   /\ given = Traces[tid][1].given
   /\ sendFail = Traces[tid][1].sendfail
+  /\ badPort = Traces[tid][1].badport
   /\ l = 2
   /\ phase = "stim"
   /\ reported = FALSE /\ bReported = FALSE
@@ -71,7 +72,7 @@ TInitResume == IsEv("init_resume") /\ InitResume /\ Go
 TPierce == IsEv("pierce") /\ Pierce /\ Go
 TCannotConnect == IsEv("cannot_connect") /\ CannotConnect /\ Go
 TCancel == IsEv("cancel") /\ CancelRequest /\ Go
-TCtpRequest == IsEv("ctp_request") /\ CtpRequest /\ Go
+TCtpRequest == IsEv("ctp_request") /\ Rec.kind \in {"ok", "badport"} /\ CtpRequest(Rec.kind) /\ Go
 TBConnOk == IsEv("bconn_ok") /\ Rec.init \in {"ok", "fail"} /\ BConnOk(Rec.init) /\ Go
 TBConnRefused == IsEv("bconn_refused") /\ BConnRefused /\ Go
 TAddrWaitEnds == IsEv("addr_wait_ends") /\ AddrWaitEnds /\ Go
@@ -115,12 +116,16 @@ TAddrGiveUp ==
 \* observations at the quiescent point
 
 \* the returned connection as the caller sees it: connected, initialised for its type, of the requested
-\* type and peer, registered, transport open and carrying data
+\* type and peer, registered, transport open, and USABLE as a connection of that type in both directions:
+\* tx = one message of its type sent on it arrived at the peer in the encoding such a peer expects
+\* (P: peer message, obfuscated iff the path runs over an obfuscated port; D: distributed message, clear;
+\* F: raw bytes, clear); rx = one such message from the peer was delivered to us
 UsableObs(rc) ==
   /\ rc.st = "CONNECTED"
   /\ rc.cs = (IF Hdr.typ = "F" THEN "NEGOTIATING_TRANSFER" ELSE "ESTABLISHED")
   /\ rc.typ = Hdr.typ /\ rc.user = Hdr.user
-  /\ rc.inreg /\ rc.link /\ rc.tx
+  /\ rc.inreg /\ rc.link
+  /\ rc.tx /\ rc.rx
 
 OutcomeAgrees ==
   IF pcO \in OTerm /\ ~reported
